@@ -188,6 +188,43 @@ def h_attach_sym(sx, cfg):
         sx.check(f"kept-after-{name}", list(mesh.subregions) == list(before))
 
 
+def h_shared(sx, cfg):
+    """history with shared objects: one Region attached under two names, a second mesh built from the first one's subregions,
+    then in-place changes of one mesh and of the caller's Region -- every mesh still holds the images of its own lattice boxes"""
+    df = lib.load()
+    n = tuple(cfg["n"])
+    nd = len(n)
+    mesh1, pmin, e = sym_mesh(sx, n, flip=False)
+    c = [e[a] / n[a] for a in range(nd)]
+    lo, hi = cfg["box"]
+    blo, bhi = _lattice_box(pmin, c, lo, hi)
+    s = df.Region(p1=blo if nd > 1 else blo[0], p2=bhi if nd > 1 else bhi[0])
+    mesh1.subregions = {"a": s, "b": s}
+    mesh2 = df.Mesh(p1=pmin if nd > 1 else pmin[0], p2=[pmin[a] + e[a] for a in range(nd)] if nd > 1 else pmin[0] + e[0], n=n if nd > 1 else n[0], subregions=mesh1.subregions)
+    t = sx.reals("t", nd)
+    step = cfg.get("step", "translate")
+    if step == "translate":
+        mesh1.translate(sx.arr(t) if nd > 1 else t[0], inplace=True)
+        img = lambda x: [x[a] + t[a] for a in range(nd)]  # noqa: E731
+    else:
+        mesh1.scale(2.0, reference_point=pmin if nd > 1 else pmin[0], inplace=True)
+        img = lambda x: [pmin[a] + 2.0 * (x[a] - pmin[a]) for a in range(nd)]  # noqa: E731
+    for nm in ("a", "b"):
+        for name, cond in _subs_equal(sx, {nm: mesh1.subregions[nm]}, [(nm, img(blo), img(bhi))], "changed-mesh"):
+            sx.check(name, cond)
+        for name, cond in _subs_equal(sx, {nm: mesh2.subregions[nm]}, [(nm, blo, bhi)], "other-mesh"):
+            sx.check(name, cond)
+    sx.check("caller-region-not-moved", sx.And(sx.eq(list(s.pmin), blo), sx.eq(list(s.pmax), bhi)))
+    # the caller moves its own Region object afterwards
+    u = sx.reals("u", nd)
+    s.translate(sx.arr(u) if nd > 1 else u[0], inplace=True)
+    for nm in ("a", "b"):
+        for name, cond in _subs_equal(sx, {nm: mesh1.subregions[nm]}, [(nm, img(blo), img(bhi))], "changed-mesh-after-caller-edit"):
+            sx.check(name, cond)
+        for name, cond in _subs_equal(sx, {nm: mesh2.subregions[nm]}, [(nm, blo, bhi)], "other-mesh-after-caller-edit"):
+            sx.check(name, cond)
+
+
 def h_aligned(sx, cfg):
     """is_aligned: True iff cell sizes agree and the origins differ by whole cells (concrete first mesh, symbolic second)"""
     df = lib.load()
@@ -513,6 +550,9 @@ def tasks(tier):
         al += [dict(pmin=[0.0, 0.0, 0.0], edges=[1.0, 2.0, 0.3], n=[2, 2, 3]), dict(pmin=[0.5], edges=[0.3], n=[3], n2=[5])]
     for g in al:
         t.append(dict(harness="h_aligned", cfg=g, limits=big))
+    for n, box, step in ([((3,), ([1], [2]), "translate"), ((2, 3), ([0, 1], [2, 3]), "scale")] if q else
+                         [((3,), ([1], [2]), "translate"), ((3,), ([0], [2]), "scale"), ((2, 3), ([0, 1], [2, 3]), "scale"), ((2, 3), ([1, 0], [2, 2]), "translate"), ((2, 1, 2), ([0, 0, 1], [1, 1, 2]), "translate")]):
+        t.append(dict(harness="h_shared", cfg=dict(n=list(n), box=[list(box[0]), list(box[1])], step=step), limits=big))
     for nd in ((1, 2, 3) if q else (1, 2, 3, 4)):
         lay = LAYOUTS[nd]
         for ax in range(nd):
